@@ -17,10 +17,16 @@ RULE = ("real Repeat blocks (explicit, or created by Event(dest, etype, repeat=,
         "count in {None,0,1,3}, for an explicit block and for an implicit one (quick: a quarter of the 3-arrival "
         "scripts for the implicit block); plus random scripts with non-matching event types, extra data items, external / "
         "direct / block sources, intermediate observation points, events after the stop, invalid constructor "
-        "arguments, and chains with commensurable intervals (so that both timeouts fall into one loop iteration). "
+        "arguments, chains with commensurable intervals (so that both timeouts fall into one loop iteration), and "
+        "(single block) destinations that REFUSE deliveries: every script of <=2 arrivals x count in {None,1,3} x "
+        "index 0..5 of the refused delivery x kind (EdzedUnknownEvent as for an unknown event type / an error in "
+        "the handler), random richer scripts with 0..3 refusals, and the event type 'pp' whose destination handler "
+        "needs a data item (parameter error when it is missing); the answers the destination actually gave are "
+        "handed to the model per step. "
         "Same-instant timer arrivals are reported to model and oracle in the ACTUAL order of delivery. Compared "
-        "after every arrival / observation point: the time-stamped events received by the probe (type + all data "
-        "items) and Repeat.output of each block; the run goes on >= 3 intervals after the script and >= 3 after the "
+        "after every arrival / observation point: the time-stamped deliveries at the probe (type + all data "
+        "items + how the probe answered), what the sender got back (ok / EdzedUnknownEvent / another exception / "
+        "EdzedInvalidState), Circuit.is_ready() and Repeat.output of each block; the run goes on >= 3 intervals after the script and >= 3 after the "
         "stop. distinct = hash of (lines, trace); non-trivial = at least one repetition was sent")
 ASSUMPTIONS = [
     "asyncio itself is not verified: wait_for/call_at/Queue on the virtual loop are taken as they are",
@@ -145,7 +151,38 @@ def scenarios(rng, tier):
                    mk_ops(first_t, rng.choice(short if k % 3 else enum), i1), interval=i1, chain=True,
                    interval2=i2, count2=rng.choice(COUNTS + [2]), etype2='put' if rng.random() < 0.9 else 'zz')
         yield decorate(rng, scn, richer=k % 2 == 0)
-    # 4. constructor checks
+    # 4. destinations that refuse a delivery (single block): every script of <= 2 arrivals x count x the index
+    #    of the refused delivery x kind (u: unknown event type, e: an error), then random richer ones incl.
+    #    the event type 'pp' whose handler needs the item 'needed' (parameter error when it is missing)
+    small = [o for o in enum if len(o) <= 2]
+    for steps in small:
+        for count in (None, 1, 3):
+            for idx in range(6):
+                for kind_r in 'ue':
+                    if tier == 'quick' and kind_r == 'e' and idx % 2:
+                        continue
+                    ops = mk_ops(first_t, steps, I0)
+                    for op in ops:
+                        op[2] = 'direct' if (idx + len(steps)) % 2 else 'ext'
+                    yield base('explicit', count, ops, refuse=[[idx, kind_r]])
+    nref = 2500 if tier == 'quick' else 30000
+    for k in range(nref):
+        iv = rng.choice([I0, I0, I0 // 2, 2 * I0])
+        ety = rng.choice(['put', 'put', 'pp'])
+        scn = base(rng.choice(['explicit', 'implicit']), rng.choice([None, 1, 3, 0, 2]),
+                   mk_ops(first_t, rng.choice(enum), iv), interval=iv, etype=ety)
+        scn = decorate(rng, scn, richer=k % 3 != 0)
+        if ety == 'pp':
+            for op in scn['ops']:
+                if op[1] != 'adv' and op[3] == 'M' and rng.random() < 0.8:
+                    op[4] = {**op[4], 'needed': 1}
+            for po in scn.get('post') or []:
+                if rng.random() < 0.8:
+                    po[2] = {**po[2], 'needed': 1}
+        scn['refuse'] = sorted([rng.randint(0, 9), rng.choice('uuue')] for _ in range(rng.choice([0, 1, 1, 2, 3])))
+        scn['refuse'] = [r for j, r in enumerate(scn['refuse']) if j == 0 or r[0] != scn['refuse'][j - 1][0]]
+        yield scn
+    # 5. constructor checks
     for iv, cnt in [(0, None), (-I0, 3), (I0, -1), (I0, -3), (0, -1)]:
         yield {'kind': 'explicit', 'etype': 'put', 'interval': iv, 'count': cnt, 'ops': [], 'tail': 1, 'ctor': True}
 
@@ -160,6 +197,9 @@ def shrink(scn):
             yield {**scn, 'ops': ops[:i] + [op[:4] + [{}]] + ops[i + 1:]}
     if scn.get('chain') and scn.get('count2') not in (0,):
         yield {**scn, 'count2': 0}
+    ref = scn.get('refuse') or []
+    for i in range(len(ref)):
+        yield {**scn, 'refuse': ref[:i] + ref[i + 1:]}
 
 
 # ---------------------------------------------------------------- implementation run
@@ -175,15 +215,49 @@ class GuardLoop(vtime.VLoop):
 
 
 class TProbe(edzed.SBlock):
-    """destination: time-stamped record of everything it receives"""
+    """
+    destination: time-stamped record of every delivery attempt and of how it ended
+    ('o' handled, 'u' EdzedUnknownEvent, 'e' another exception).
+    It refuses the deliveries named by the script `refuse` {attempt index: 'u' | 'e'} -- 'u' is what
+    SBlock._event does for an event type the block does not know, 'e' an error inside the handler --
+    and events of type 'pp' without the data item 'needed' (a handler with a required parameter:
+    the TypeError of the call itself, one traceback level).
+    """
 
-    def __init__(self, *args, timeline, outs, **kwargs):
+    def __init__(self, *args, timeline, outs, refuse=None, **kwargs):
         self._tl = timeline
         self._outs = outs
+        self._refuse = dict(refuse or {})
+        self._attempts = 0
         super().__init__(*args, **kwargs)
 
+    def event(self, etype, /, **data):
+        self._attempts += 1
+        t = asyncio.get_running_loop().now_us
+        resp = 'o'
+        try:
+            return super().event(etype, **data)
+        except edzed.EdzedUnknownEvent:
+            resp = 'u'
+            raise
+        except Exception:
+            resp = 'e'
+            raise
+        finally:
+            self._tl.append(('probe', t, etype, dict(data), self._outs(), resp))
+
+    def _scripted(self):
+        answer = self._refuse.get(self._attempts - 1)
+        if answer == 'u':
+            raise edzed.EdzedUnknownEvent(f"{self}: no handler (scripted refusal)")
+        if answer == 'e':
+            raise ValueError('scripted error inside the destination handler')
+
     def _event(self, etype, data):
-        self._tl.append(('probe', asyncio.get_running_loop().now_us, etype, dict(data), self._outs()))
+        self._scripted()
+
+    def _event_pp(self, *, needed, **_data):
+        self._scripted()
 
     def init_regular(self):
         self.set_output(None)
@@ -209,7 +283,7 @@ class LoggedRepeat(edzed.Repeat):
     _c18_timeline = None
 
     def _event(self, etype, data):
-        self._c18_timeline.append(('arr2', asyncio.get_running_loop().now_us, etype, dict(data), None))
+        self._c18_timeline.append(('arr2', asyncio.get_running_loop().now_us, etype, dict(data), None, 'o'))
         return super()._event(etype, data)
 
 
@@ -237,7 +311,8 @@ def run_impl(scn):
     chain = bool(scn.get('chain'))
     lines, trace = [], []
     timeline = []        # ('probe'|'arr2', t, etype, data, outs)
-    marks = []           # in ACTUAL order: (kind, op index or time, len(timeline), outs, error)
+    marks = []           # in ACTUAL order: (kind, op index or time, now, len(timeline), outs, ret, ready)
+    errors = []
     info = {'names': [], 'arrivals': [], 'aborted': False, 'stop_t': None, 'post_t': []}
     blocks = {}
 
@@ -251,7 +326,7 @@ def run_impl(scn):
         return r
 
     def build():
-        probe = TProbe('p', timeline=timeline, outs=outs)
+        probe = TProbe('p', timeline=timeline, outs=outs, refuse={int(k): v for k, v in scn.get('refuse') or []})
         dest = probe
         if chain:
             r2 = LoggedRepeat('r2', dest=probe, etype=scn['etype2'], interval=scn['interval2'] / 1e6,
@@ -304,17 +379,28 @@ def run_impl(scn):
         else:
             r1.event(ety, **data)
 
+    def call(send):
+        """what the sender gets back: ok | u (EdzedUnknownEvent) | e (another exception) | notready"""
+        try:
+            send()
+        except edzed.EdzedInvalidState as exc:
+            errors.append(exc)
+            return 'notready'
+        except edzed.EdzedUnknownEvent as exc:
+            errors.append(exc)
+            return 'u'
+        except Exception as exc:
+            errors.append(exc)
+            return 'e'
+        return 'ok'
+
     def make_stim(i):
         op = ops[i]
 
         def stim():
             loop = asyncio.get_running_loop()
-            err = None
-            try:
-                do_send(op[2], op[3], received_data(op[2], seqs[i], op[4], 'src'))
-            except Exception as exc:
-                err = exc
-            marks.append(('ev', i, loop.now_us, len(timeline), None if err else outs(), err))
+            ret = call(lambda: do_send(op[2], op[3], received_data(op[2], seqs[i], op[4], 'src')))
+            marks.append(('ev', i, loop.now_us, len(timeline), outs(), ret, circuit.is_ready()))
         return stim
 
     async def main(loop):
@@ -329,7 +415,7 @@ def run_impl(scn):
             if pl == 'adv':
                 if t >= now():
                     await vtime.advance_to(loop, t)
-                    marks.append(('adv', t, now(), len(timeline), outs(), None))
+                    marks.append(('adv', t, now(), len(timeline), outs(), None, circuit.is_ready()))
                 continue
             if pl == 'A':
                 await vtime.advance_to(loop, t)
@@ -345,7 +431,7 @@ def run_impl(scn):
                     loop.call_at(t / 1e6, make_stim(i))
         t_end = last + scn['tail'] * iv + iv // 2
         await vtime.advance_to(loop, t_end)
-        marks.append(('adv', t_end, now(), len(timeline), outs(), None))
+        marks.append(('adv', t_end, now(), len(timeline), outs(), None, circuit.is_ready()))
         err = None
         try:
             await circuit.shutdown()
@@ -353,29 +439,27 @@ def run_impl(scn):
             err = exc
         await vtime.settle(loop)
         info['stop_t'] = now()
-        marks.append(('stop', None, now(), len(timeline), None, err))
+        marks.append(('stop', None, now(), len(timeline), None, err, False))
         for dt, ety, extra in scn.get('post') or []:
             await vtime.advance_to(loop, now() + dt)
             n += 1
             data = received_data('direct', n, extra, 'src')
-            perr = None
-            try:
-                r1.event(etype if ety == 'M' else ety, **data)
-            except Exception as exc:
-                perr = exc
-            info['post_t'].append([now(), ety, data])
-            marks.append(('post', (ety, data), now(), len(timeline), None if perr else outs(), perr))
+            ret = call(lambda: r1.event(etype if ety == 'M' else ety, **data))
+            info['post_t'].append([now(), ety, data, ret])
+            marks.append(('post', (ety, data), now(), len(timeline), outs(), ret, circuit.is_ready()))
         t_fin = now() + 3 * max(iv, scn.get('interval2') or 0) + iv // 2
         await vtime.advance_to(loop, t_fin)
-        marks.append(('adv', t_fin, now(), len(timeline), outs(), None))
+        marks.append(('adv', t_fin, now(), len(timeline), outs(), None, circuit.is_ready()))
         info['aborted'] = circuit.error is not None and not isinstance(circuit.error, asyncio.CancelledError)
+        info['abort_seen_at_stop'] = err is not None
         info['error'] = repr(circuit.error)
 
     vtime.run(main, loop=GuardLoop())
 
     # ---- protocol lines in the actual order of delivery
     def render(entries):
-        ev = [f"{e[1]}@{hexs(e[2])}@{enc_data(e[3])}" for e in entries if e[0] == 'probe']
+        ev = [f"{e[1]}@{hexs(e[2])}@{enc_data(e[3])}{'' if e[5] == 'o' else '!' + e[5]}"
+              for e in entries if e[0] == 'probe']
         return 'log ' + ('|'.join(ev) if ev else '-')
 
     def flags(entries, before):
@@ -389,8 +473,13 @@ def run_impl(scn):
                 fl += 'a' if tie_first else 'b'
         return fl or '-'
 
+    def answers(entries):
+        """what the destination answered to the deliveries of the step ('-': it accepted all of them)"""
+        an = ''.join(e[5] for e in entries if e[0] == 'probe')
+        return an if an.strip('o') else '-'
+
     pos = 0
-    for kind, arg, t, upto, o, err in marks:
+    for kind, arg, t, upto, o, ret, ready in marks:
         seg = timeline[pos:upto]
         before = timeline[pos - 1] if pos > 0 else None
         pos = upto
@@ -398,27 +487,29 @@ def run_impl(scn):
             op = ops[arg]
             data = received_data(op[2], seqs[arg], op[4], 'src')
             ety = etype if op[3] == 'M' else op[3]
-            lines.append(f"repeat event {t} {op[1]} {hexs(ety)} {enc_data(data)} {flags(seg, before)}")
+            lines.append(f"repeat event {t} {op[1]} {'d' if op[2] == 'direct' else 'x'} {hexs(ety)} "
+                         f"{enc_data(data)} {flags(seg, before)} {answers(seg)}")
             info['arrivals'].append({'t': t, 'pl': op[1], 'match': op[3] == 'M', 'data': data, 'seq': seqs[arg],
-                                     'src': op[2]})
+                                     'src': op[2], 'etype': ety, 'ret': ret})
         elif kind == 'post':
             ety, data = arg
-            lines.append(f"repeat event {t} A {hexs(etype if ety == 'M' else ety)} {enc_data(data)} {flags(seg, before)}")
+            lines.append(f"repeat event {t} A d {hexs(etype if ety == 'M' else ety)} {enc_data(data)} "
+                         f"{flags(seg, before)} {answers(seg)}")
         elif kind == 'adv':
-            lines.append(f"repeat advance {t} {flags(seg, before)}")
+            lines.append(f"repeat advance {t} {flags(seg, before)} {answers(seg)}")
         else:
             lines.append('repeat stop')
             trace.append('ok' if not seg else 'err LateEvents')
-            info.setdefault('obs', []).append({'kind': 'stop', 't': t, 'err': err_kind(err) if err else None})
+            info.setdefault('obs', []).append({'kind': 'stop', 't': t, 'err': err_kind(ret) if ret else None})
             continue
-        if err is not None:
-            trace.append('err ' + err_kind(err))
-        else:
-            trace.append(f"{render(seg)} out {' '.join(str(x) for x in o)}")
-        info.setdefault('obs', []).append({'kind': kind, 't': t, 'outs': o, 'err': err_kind(err) if err else None,
+        trace.append(f"{render(seg)} out {' '.join(str(x) for x in o)} {'run' if ready else 'end'}"
+                     + (f" ret {ret}" if ret is not None else ''))
+        info.setdefault('obs', []).append({'kind': kind, 't': t, 'outs': o, 'ret': ret, 'ready': ready,
                                            'nprobe': sum(1 for e in timeline[:upto] if e[0] == 'probe'),
                                            'narr': len(info['arrivals']) + len([1 for ob in info.get('obs', []) if ob['kind'] == 'post'])})
-    probe_events = [{'t': e[1], 'etype': e[2], 'data': e[3], 'outs': e[4]} for e in timeline if e[0] == 'probe']
+    probe_events = [{'t': e[1], 'etype': e[2], 'data': e[3], 'outs': e[4], 'resp': e[5]}
+                    for e in timeline if e[0] == 'probe']
+    info['errors'] = [repr(e)[:200] for e in errors[:3]]
     mid_events = [{'t': e[1], 'etype': e[2], 'data': e[3]} for e in timeline if e[0] == 'arr2']
     reps = sum(1 for e in probe_events if e['data'].get('repeat'))
     tags = [f"kind={scn['kind']}", f"chain={int(chain)}", f"count={count}",
@@ -428,7 +519,12 @@ def run_impl(scn):
         tags.append('other-type')
     if scn.get('post'):
         tags.append('post-stop-events')
-    if any(ln.startswith(('repeat event', 'repeat advance')) and ln.split()[-1] != '-' and 'a' in ln.split()[-1]
+    for e in probe_events:
+        if e['resp'] != 'o':
+            tags.append(f"refused-{e['resp']}-{'forward' if not e['data'].get('repeat') else 'repetition'}")
+    if info['aborted']:
+        tags.append('aborted')
+    if any(ln.startswith(('repeat event', 'repeat advance')) and ln.split()[-2] != '-' and 'a' in ln.split()[-2]
            for ln in lines):
         tags.append('tie-downstream-first')
     return {'lines': lines, 'trace': trace, 'tags': tags, 'nontrivial': reps > 0, 'info': info,
@@ -474,6 +570,160 @@ def expected_sends(cfg, arrivals, limit):
     return out
 
 
+def expected_single(cfg, arrivals, stop_t, answer):
+    """
+    Reference for ONE Repeat block whose destination may refuse deliveries (written from the property text
+    and docs/sblocks1.rst + the documented error handling: an unknown event type is reported to the sender
+    and is no reason to stop the simulation; an exception in a service task stops it).
+    arrivals in order of delivery: {'t','pl','etype','data','ext','stopped'}; answer(index, etype, data) -> o/u/e
+    -> (deliveries [{'t','rep','data','resp','arr'}], rets [ok/u/e/notready per arrival], aborted_at or None)
+    """
+    exp, rets = [], []
+    state = {'cur': None, 'running': True, 'aborted': None, 'n': 0, 'last': None}
+
+    def deliver(t, rep, arr, base):
+        data = {**base, 'repeat': rep}
+        resp = answer(state['n'], cfg['etype'], data)
+        state['n'] += 1
+        exp.append({'t': t, 'rep': rep, 'data': data, 'resp': resp, 'arr': arr, 'optional': False})
+        return resp
+
+    def abort(t):
+        if state['running'] and state['aborted'] is None:
+            state['aborted'] = t            # (after the stop there is nothing left to abort)
+        state['running'] = False
+        state['cur'] = None
+
+    def repetitions(horizon):
+        last = state['last']
+        if last is not None and last['due'] <= horizon:
+            # (seen on the real code) the simulation was aborted by a failed forward while a timeout of that
+            # very loop iteration was on its way: the task resumes once more before the clean-up cancels it
+            state['last'] = None
+            deliver(last['due'], last['k'], last['arr'], last['base'])
+        while state['cur'] is not None and state['running'] and state['cur']['due'] <= horizon:
+            cur = state['cur']
+            if deliver(cur['due'], cur['k'], cur['arr'], cur['base']) != 'o':
+                abort(cur['due'])       # an exception inside the main task ends the simulation
+                return
+            cur['k'] += 1
+            cur['due'] += cfg['interval']
+            if cfg['count'] is not None and cur['k'] > cfg['count']:
+                state['cur'] = None
+
+    stopped = False
+    for a in arrivals:
+        if a.get('stopped') and not stopped:
+            repetitions(stop_t)
+            stopped = True
+            state['running'] = False
+            state['cur'] = None
+        # timeouts strictly before the arrival; those of the same instant only if the loop had settled (A)
+        repetitions(a['t'] if a['pl'] == 'A' else a['t'] - 1)
+        if a.get('ext') and not state['running']:
+            rets.append('notready')
+            continue
+        if a['etype'] != cfg['etype']:
+            rets.append('ok')
+            continue
+        base = dict(a['data'])
+        base['orig_source'] = base.get('source')
+        base['source'] = cfg['name']
+        resp = deliver(a['t'], 0, a, base)
+        if resp == 'o':
+            rets.append('ok')
+            state['last'] = None        # queued: it supersedes a timeout that was still on its way
+            if state['running']:
+                # the newer event supersedes the older one and restarts the numbering
+                state['cur'] = None if cfg['count'] == 0 else \
+                    {'arr': a, 'base': base, 'k': 1, 'due': a['t'] + cfg['interval']}
+        elif resp == 'u':
+            rets.append('u')            # reported to the sender; never repeated; the older event goes on
+        else:
+            rets.append('e')
+            cur = state['cur']
+            if state['running'] and cur is not None and cur['due'] <= a['t']:
+                state['last'] = cur
+            abort(a['t'])
+    if not stopped:
+        repetitions(stop_t)
+    repetitions(stop_t)
+    return exp, rets, state['aborted']
+
+
+def probe_answer(scn):
+    refuse = {int(k): v for k, v in scn.get('refuse') or []}
+
+    def answer(index, etype, data):
+        if index in refuse:
+            if not (etype == 'pp' and 'needed' not in data):
+                return refuse[index]
+        if etype == 'pp' and 'needed' not in data:
+            return 'e'
+        return 'o'
+    return answer
+
+
+def oracle_single(scn, res):
+    info, probe = res['info'], res['probe']
+    stop_t = info['stop_t']
+    cfg = {'name': info['names'][0], 'etype': scn['etype'], 'interval': scn['interval'], 'count': scn['count']}
+    arr = [{'t': a['t'], 'pl': a['pl'], 'etype': a['etype'], 'data': a['data'], 'seq': a['seq'], 'ord': k + 1,
+            'ext': a['src'] != 'direct', 'ret': a['ret']} for k, a in enumerate(info['arrivals'])]
+    for t, ety, data, ret in info['post_t']:
+        arr.append({'t': t, 'pl': 'A', 'etype': scn['etype'] if ety == 'M' else ety, 'data': data,
+                    'stopped': True, 'seq': data['value'], 'ord': len(arr) + 1, 'ext': False, 'ret': ret})
+    exp, rets, aborted_at = expected_single(cfg, arr, stop_t, probe_answer(scn))
+    refused = {e['arr']['seq'] for e in exp if e['rep'] == 0 and e['resp'] != 'o'}
+    # a. what the destination received
+    i = 0
+    for i, (o, e) in enumerate(itertools.zip_longest(probe, exp)):
+        same = (o is not None and e is not None and o['t'] == e['t'] and o['etype'] == cfg['etype']
+                and o['data'] == e['data'] and o['resp'] == e['resp'])
+        if same:
+            continue
+        if o is not None and o['data'].get('repeat') and o['data'].get('value') in refused:
+            return [{'clause': 'refused_event_not_repeated',
+                     'what': f"t={o['t']}: repeat={o['data'].get('repeat')} of the event value={o['data'].get('value')} "
+                             f"whose original forwarding had been refused by the destination"}]
+        refused_before = [q for q in probe[:i] if q['resp'] != 'o' and not q['data'].get('repeat')]
+        if (e is not None and e['rep'] >= 1 and refused_before
+                and refused_before[-1]['data'].get('value', -1) > e['arr']['seq']):
+            return [{'clause': 'refused_event_not_repeated',
+                     'what': f"the event value={e['arr']['seq']} was being repeated (next: repeat={e['rep']} at t={e['t']}); "
+                             f"the refused event value={refused_before[-1]['data'].get('value')} must not replace it, "
+                             f"but the destination got {None if o is None else (o['t'], o['data'].get('repeat'), o['data'].get('value'))}"}]
+        if o is not None and aborted_at is not None and o['t'] > aborted_at and o['data'].get('repeat'):
+            return [{'clause': 'nothing_after_stop', 'what': f"t={o['t']}: repetition after the abort at {aborted_at}"}]
+        v = classify(o, e, probe[:i], exp, stop_t, False)
+        if o is not None and e is not None and o['t'] == e['t'] and o['data'] == e['data'] and o['resp'] != e['resp']:
+            v = {'clause': 'destination_answer', 'what': f"t={o['t']}: destination answered {o['resp']}, script says {e['resp']}"}
+        return [v]
+    # b. what the senders got back
+    for a, want in zip(arr, rets):
+        if a['ret'] != want:
+            clause = 'event_handled' if want == 'ok' else 'refusal_reported_to_sender'
+            return [{'clause': clause, 'what': f"event value={a['seq']} at t={a['t']}: sender got {a['ret']}, expected {want} "
+                                                f"({info.get('errors')})"}]
+    # c. the simulation keeps running unless a repetition was refused / a forward failed with an error
+    if info['aborted'] and aborted_at is None:
+        return [{'clause': 'simulation_keeps_running',
+                 'what': f"simulation aborted ({info.get('error')}); refused original events: {sorted(refused)}"}]
+    if aborted_at is not None and not info['aborted']:
+        return [{'clause': 'error_in_main_task_stops_simulation', 'what': f"no abort although a delivery failed at {aborted_at}"}]
+    for ob in info.get('obs', []):
+        if ob['kind'] == 'stop':
+            break
+        want = aborted_at is None or ob['t'] < aborted_at
+        if aborted_at is not None and ob['t'] == aborted_at:
+            continue
+        if ob.get('ready') != want:
+            return [{'clause': 'simulation_keeps_running' if want else 'error_in_main_task_stops_simulation',
+                     'what': f"t={ob['t']}: is_ready()={ob.get('ready')}, expected {want}"}]
+    # d. outputs
+    return check_outputs(scn, res, False, exp, rets)
+
+
 def oracle(scn, res):
     if scn.get('ctor'):
         if not res.get('ctor_error'):
@@ -481,24 +731,25 @@ def oracle(scn, res):
         return []
     info, probe = res['info'], res['probe']
     chain = bool(scn.get('chain'))
+    if not chain:
+        return oracle_single(scn, res)
     name1 = info['names'][0]
     out = []
     stop_t = info['stop_t']
-    # 0. every event must have been handled; the simulation must not die
+    # 0. (chains run with an accepting destination) every event must be handled; the simulation must not die
     for ob in info.get('obs', []):
-        if ob.get('err') and ob['kind'] != 'stop':
-            out.append({'clause': 'chain_of_two' if chain else 'event_handled',
-                        'what': f"event at t={ob['t']} raised {ob['err']} ({info.get('error')})"})
+        if ob.get('ret') not in (None, 'ok') and ob['kind'] != 'stop':
+            out.append({'clause': 'chain_of_two',
+                        'what': f"event at t={ob['t']}: sender got {ob['ret']} ({info.get('errors')}; {info.get('error')})"})
             return out
     if info['aborted']:
-        out.append({'clause': 'chain_of_two' if chain else 'event_handled',
-                    'what': f"simulation aborted: {info.get('error')}"})
+        out.append({'clause': 'chain_of_two', 'what': f"simulation aborted: {info.get('error')}"})
         return out
     # 1. expected schedule of the first block
     cfg1 = {'name': name1, 'etype': scn['etype'], 'interval': scn['interval'], 'count': scn['count']}
     arr = [{'t': a['t'], 'pl': a['pl'], 'etype': scn['etype'] if a['match'] else 'other', 'data': a['data'],
             'seq': a['seq'], 'ord': k + 1} for k, a in enumerate(info['arrivals'])]
-    for t, ety, data in info['post_t']:
+    for t, ety, data, _ret in info['post_t']:
         arr.append({'t': t, 'pl': 'A', 'etype': scn['etype'] if ety == 'M' else ety, 'data': data,
                     'stopped': True, 'seq': data['value'], 'ord': len(arr) + 1})
     exp = exp1 = expected_sends(cfg1, arr, stop_t)
@@ -572,7 +823,7 @@ def classify(o, e, seen, exp, stop_t, chain):
     return {'clause': 'forward_immediately_repeat0', 'what': what}
 
 
-def check_outputs(scn, res, chain, exp1):
+def check_outputs(scn, res, chain, exp1, rets=None):
     """Repeat.output = repeat value of the last event that block sent (0 before the first)"""
     info, probe = res['info'], res['probe']
     last = info['names'][-1]
@@ -583,19 +834,26 @@ def check_outputs(scn, res, chain, exp1):
                      'what': f"at t={p['t']} {last} sent repeat={p['data'].get('repeat')} with output {p['outs'][-1]}"}]
     arrivals = iter(info['arrivals'])
     posts = iter(info['post_t'])
+    rets = iter(rets) if rets is not None else itertools.repeat('ok')
     for ob in info.get('obs', []):
         if ob['kind'] == 'stop' or ob.get('outs') is None:
             if ob['kind'] == 'ev':
                 next(arrivals)
+                next(rets)
             elif ob['kind'] == 'post':
                 next(posts)
+                next(rets)
             continue
         if ob['kind'] == 'adv':
             # the loop has settled at ob['t']: (schedule of the first block was confirmed above for a single
             # block; in a chain it is the expected one) / what the probe saw for the last block
             delivered = ob['narr']
-            sent1 = [e for e in exp1 if e['t'] <= ob['t'] and e['arr']['ord'] <= delivered]
-            want = [sent1[-1]['rep'] if sent1 else 0]
+            if chain:
+                sent1 = [e for e in exp1 if e['t'] <= ob['t'] and e['arr']['ord'] <= delivered]
+                want = [sent1[-1]['rep'] if sent1 else 0]
+            else:
+                sofar = probe[:ob['nprobe']]        # (already confirmed to be the expected deliveries)
+                want = [sofar[-1]['data'].get('repeat') if sofar else 0]
             if chain:
                 sofar = probe[:ob['nprobe']]
                 want.append(sofar[-1]['data'].get('repeat') if sofar else 0)
@@ -607,8 +865,10 @@ def check_outputs(scn, res, chain, exp1):
                 matching = next(posts)[1] == 'M'
             else:
                 matching = next(arrivals)['match']
+            ret = next(rets)
             # sampled right after a matching event was handled: the original was just forwarded with repeat=0
-            if matching and ob['outs'][0] != 0:
+            # (also when the destination refused it; not after an abort, not when the block was not reached)
+            if matching and ret in ('ok', 'u') and ob['outs'][0] != 0:
                 return [{'clause': 'output_is_repeat',
                          'what': f"t={ob['t']}: output {ob['outs'][0]} right after forwarding an event with repeat=0"}]
     return []
